@@ -85,6 +85,8 @@ class Engine:
         self.specfns = {}
         self.inline_depth = 0
         self._stringy_cache = {}
+        self.cur_state = None          # state of the expression being evaluated (for heap-dependent truthiness)
+        self.binder_depth = 0          # >0 while evaluating under a bound variable (comprehension / quantifier)
         self.facts = []                # valid ground instances of builtin axioms met on the way (shared by all paths)
         self._fact_keys = set()
         for k, p in BUILTIN_EXC.items():
@@ -181,8 +183,11 @@ class Engine:
                 s.set('timeout', 300)
                 for p in lia:
                     s.add(p)
-                if s.check() == z3.unsat:
-                    return False
+                try:
+                    if s.check() == z3.unsat:
+                        return False
+                except z3.Z3Exception:
+                    pass
             finally:
                 s.pop()
             return True
@@ -197,7 +202,10 @@ class Engine:
                 s.add(a)
             for p in st.pc:
                 s.add(p)
-            r = s.check()
+            try:
+                r = s.check()
+            except z3.Z3Exception:
+                r = z3.unknown
         finally:
             s.pop()
         return r != z3.unsat
@@ -212,7 +220,10 @@ class Engine:
                 if not self._stringy(p):
                     s.add(p)
             s.add(z3.Not(goal))
-            return s.check() == z3.unsat
+            try:
+                return s.check() == z3.unsat
+            except z3.Z3Exception:
+                return False
         finally:
             s.pop()
 
@@ -260,7 +271,10 @@ class Engine:
                 s.add(p)
             s.add(z3.Not(goal))
             s.set('timeout', 400)
-            r = s.check()
+            try:
+                r = s.check()
+            except z3.Z3Exception:
+                r = z3.unknown
         finally:
             s.pop()
         return r == z3.unsat
@@ -361,7 +375,7 @@ class Engine:
             return V(BOOL, self.truthy(v))
         raise Unsupported(f'cannot coerce {v.ty} to {ty}')
 
-    def truthy(self, v):
+    def truthy(self, v, st=None):
         ty = v.ty
         if ty is BOOL:
             return v.t
@@ -375,10 +389,15 @@ class Engine:
             inner = V(ty.inner, ty.val(v.t))
             return z3.And(ty.is_some(v.t), self.truthy(inner))
         if isinstance(ty, TRef):
+            if self.field_ty(ty.cls, '__items__') is not None:
+                st = st or self.cur_state
+                if st is None:
+                    raise Unsupported(f'truthiness of {ty.cls} needs the heap')
+                return z3.Length(self.read_field(st, v, '__items__').t) > 0
             ci = self.src.find_class(ty.cls)
             if ci is not None:
                 c, m = self.src.lookup_method(ci, '__len__')
-                if m is not None or ty.cls in self.reg.shapes and '__items__' in self.reg.shapes[ty.cls].fields:
+                if m is not None:
                     raise Unsupported(f'truthiness of {ty.cls} goes through __len__ (use explicit dispatch)')
             return v.t != null() if ty.nullable else z3.BoolVal(True)
         if isinstance(ty, TTuple):
